@@ -304,7 +304,12 @@ func (c *compiler) compileType(y *Type, parent Leafable, isUnion bool) error {
 		}
 		// the type is shared by every copy of a leaf that comes from a grouping and is
 		// compiled once, but each copy has to get the default and units of the typedef
-		if _, builtinType := val.TypeAsFormat(y.ident); !builtinType && !isUnion {
+		builtinFormat, builtinType := val.TypeAsFormat(y.ident)
+		if builtinType && builtinFormat == val.FmtAny && y.format.Single() != val.FmtAny {
+			// a typedef named any
+			builtinType = false
+		}
+		if !builtinType && !isUnion {
 			if tdef, err := c.findTypedef(y, parent, y.ident); err == nil {
 				c.inheritFromTypedef(parent, tdef)
 			}
@@ -327,6 +332,12 @@ func (c *compiler) compileType(y *Type, parent Leafable, isUnion bool) error {
 	}
 	var builtinType bool
 	y.format, builtinType = val.TypeAsFormat(y.ident)
+	if builtinType && y.format == val.FmtAny {
+		// "any" is not a type of YANG, a typedef may go by that name
+		if _, err := c.findTypedef(y, parent, y.ident); err == nil {
+			builtinType = false
+		}
+	}
 	if !builtinType {
 		tdef, err := c.findTypedef(y, parent, y.ident)
 		if err != nil {
